@@ -29,7 +29,7 @@ PARAMS = {"PM6_SP": ["U_ss", "U_pp", "zeta_s", "zeta_p", "beta_s", "beta_p", "g_
           "PM3": ["U_ss", "U_pp", "zeta_s", "zeta_p", "beta_s", "beta_p", "g_ss", "g_sp", "g_pp", "g_p2", "h_sp", "alpha", "Gaussian1_K", "Gaussian2_L", "Gaussian2_M"]}
 
 
-def _setup(names, method, param, mode):
+def _setup(names, method, param, mode, converger=None):
     import torch
 
     from seqm.basics import Energy
@@ -41,7 +41,7 @@ def _setup(names, method, param, mode):
     with contextlib.redirect_stdout(io.StringIO()):
         m0 = Molecule(Constants(), dict(base_sp), torch.as_tensor(x), torch.as_tensor(s))
     p0 = m0.parameters[param].detach().clone()
-    sp = esh.settings(method=method, eps=1e-11, converger=[1], learned=[param], scf_backward=mode, scf_backward_eps=1e-11)
+    sp = esh.settings(method=method, eps=1e-11, converger=list(converger or [1]), learned=[param], scf_backward=mode, scf_backward_eps=1e-11)
     with contextlib.redirect_stdout(io.StringIO()):
         mol = Molecule(Constants(), sp, torch.as_tensor(x), torch.as_tensor(s), learned_parameters={param: p0.clone()})
         en = Energy(sp)
@@ -75,7 +75,7 @@ def probe_param_grad(inp: Dict[str, Any]) -> Dict[str, Any]:
     import torch
 
     names, method, param, mode, which = inp["names"], inp["method"], inp["param"], inp["mode"], inp["output"]
-    mol, en, p0, sp = _setup(names, method, param, mode)
+    mol, en, p0, sp = _setup(names, method, param, mode, converger=inp.get("converger"))
     bad: List[str] = []
     kinds = set()
     leaf = inp.get("leaf", True)
@@ -220,6 +220,11 @@ def gen_cases(ctx: Ctx):
     cases.append(("param_grad", {"names": ["h2o"], "method": "AM1", "param": "h_sp", "mode": 1, "output": "Etot", "leaf": True}))
     cases.append(("param_grad", {"names": ["h2o"], "method": "AM1", "param": "g_ss", "mode": 1, "output": "gap", "leaf": True}))
     cases.append(("param_grad", {"names": ["h2o"], "method": "AM1", "param": "g_ss", "mode": 2, "output": "gap", "leaf": True}))
+    # corpus: Slater exponents of two atoms of the SAME element (the auxiliary B integrals are evaluated at x = 0.5 R (zeta_a - zeta_b) = 0 exactly; MNDO has zeta_s = zeta_p, so every
+    # orbital pair of such atoms sits there): F27
+    cases.append(("param_grad", {"names": ["c2h4"], "method": "MNDO", "param": "zeta_s", "mode": 0, "output": "Etot", "leaf": True, "atoms": [0, 1]}))
+    cases.append(("param_grad", {"names": [str(rng.choice(["so2", "c2h4", "o2s"][:2]))], "method": "MNDO", "param": str(rng.choice(["zeta_s", "zeta_p"])), "mode": int(rng.choice([0, 1])), "output": str(rng.choice(["Etot", "Hf"])),
+                                 "leaf": bool(rng.integers(0, 2)), "atoms": [1, 2] if False else [0, 1]}))
     # re-used objects: gradient taken on the second/third call on the same Molecule (density-dependent outputs with the implicit/unrolled backward)
     cases.append(("param_grad", {"names": ["h2o"], "method": "AM1", "param": "U_ss", "mode": 1, "output": "homo", "leaf": True, "warm": 1}))
     cases.append(("param_grad", {"names": [str(rng.choice(["nh3", "ch2o", "hcn"]))], "method": str(rng.choice(["PM3", "MNDO"])), "param": str(rng.choice(["beta_s", "U_pp", "g_ss"])), "mode": int(rng.choice([1, 2])),
@@ -236,6 +241,11 @@ def gen_cases(ctx: Ctx):
         outs = ["Etot", "Hf"] if mode == 0 else ["Etot", "gap", "homo", "charges", "Hf"]
         cases.append(("param_grad", {"names": [str(rng.choice(["h2o", "nh3", "ch2o", "hcn"]))], "method": method, "param": param, "mode": mode, "output": str(rng.choice(outs)),
                                      "leaf": bool(rng.integers(0, 2)), "atoms": [0, 1]}))
+    # every SCF solver has its own unrolled graph (scf_backward = 2) and feeds the implicit backward (1): density-dependent outputs under each solver
+    for i, conv in enumerate([[2], [0, 0.3], [1, 0.5, 0.1, 12]] if ctx.thorough else [[2], [[0, 0.3], [1, 0.5, 0.1, 12]][ctx.seed % 2]]):
+        for mode in ((1, 2) if ctx.thorough or i == 0 else (2,)):
+            cases.append(("param_grad", {"names": [str(rng.choice(["h2o", "nh3", "hcn"]))], "method": str(rng.choice(["AM1", "PM3", "MNDO"])), "param": str(rng.choice(["U_ss", "beta_s", "g_ss", "U_pp"])), "mode": mode,
+                                         "output": str(rng.choice(["gap", "homo", "charges"])), "leaf": True, "atoms": [0, 1], "converger": conv}))
     cases.append(("geometry_dependent_params", {"names": ["h2o"], "method": "AM1", "param": "U_ss", "seed": 1}))
     if ctx.thorough:
         cases.append(("geometry_dependent_params", {"names": ["nh3"], "method": "PM3", "param": "beta_s", "seed": 2}))
